@@ -1,17 +1,80 @@
 import Drv.Base
 import Drv.Blocks
 import PdtModel.Model.Blocks
-open Lean Pdt Pdt.Reader Pdt.Blocks
+import PdtModel.Model.Rewrites
+open Lean Pdt Pdt.Reader Pdt.Blocks Pdt.Rewrites
 namespace Drv
 
+def tcolOfJson (j : Json) : Except String TCol := do
+  pure ⟨← getStr j "name", ← getStr j "unit", ← rowOfJson (← j.getObjVal? "cells")⟩
+
+def tvOfJson (j : Json) : Except String TV := do
+  let cols ← (← getArr j "cols").mapM tcolOfJson
+  pure ⟨← getStr j "name", ← cellOfJson (← j.getObjVal? "dest"), cols, ← getNat j "nrows"⟩
+
+/-- `[[l, r], …]` ↦ position ↦ (blanks before, blanks after); positions beyond the list get none -/
+def padFnOfJson (j : Json) : Except String (Nat → Str × Str) := do
+  let ps ← (← j.getArr?).toList.mapM fun p => do
+    match (← p.getArr?).toList with
+    | [l, r] => pure ((← l.getStr?).toList, (← r.getStr?).toList)
+    | _ => throw "bad pad pair"
+  pure fun k => ps.getD k ([], [])
+
+def stepOfJson (j : Json) : Except String (List Row → List Row) := do
+  let k ← (← j.getObjVal? "k").getStr?
+  match k with
+  | "transpose" => pure toTransposed
+  | "pad_trailing" => do
+    let pads ← (← getArr j "pads").mapM rowOfJson
+    pure fun g => padTrailing g pads
+  | "pad_header_r" => do
+    let fn ← padFnOfJson (← j.getObjVal? "names")
+    let fu ← padFnOfJson (← j.getObjVal? "units")
+    pure (padHeaderR fn fu)
+  | "pad_header_t" => do
+    let fn ← padFnOfJson (← j.getObjVal? "names")
+    let fu ← padFnOfJson (← j.getObjVal? "units")
+    pure (padHeaderT fn fu)
+  | "comments" => do
+    let b ← cellOfJson (← j.getObjVal? "blank")
+    let cs ← rowOfJson (← j.getObjVal? "cells")
+    pure (addComments b cs)
+  | _ => throw s!"bad rewrite step {k}"
+
+def endOfJson (j : Json) : Except String EndBy := do
+  let by_ ← (← j.getObjVal? "by").getStr?
+  match by_ with
+  | "eof" => pure .eof
+  | "blank" => pure (.blankLine (← rowOfJson (← j.getObjVal? "row")) (← rowsOfJson (← j.getObjVal? "rest")))
+  | "next" => pure (.nextBlock (← rowOfJson (← j.getObjVal? "row")) (← rowsOfJson (← j.getObjVal? "rest")))
+  | _ => throw s!"bad ending {by_}"
+
 /-- op handler of the `Rewrites` layer.
-    "offered": the (type, name) pairs `accepts` hands to a read filter, one per block of the segmentation -/
+    "offered": the (type, name, origin row) triples `accepts` hands to a read filter, one per block
+    "rewrite": table value + layout + rewrite steps + ending ↦ the rewritten grid, the row stream, the
+               well-formedness verdicts, and whether the splitter delivers the grid as one TABLE block -/
 def handleRewrites (op : String) (j : Json) : Option (Except String Json) :=
   match op with
   | "offered" => some do
     let rows ← rowsOfJson (← j.getObjVal? "rows")
     pure (arr ((segment rows).map fun b =>
       arr [Json.str (btString b.ty), str (if b.ty = .table then offeredName b.rows else []), nat b.first]))
+  | "rewrite" => some do
+    let t ← tvOfJson (← j.getObjVal? "table")
+    let lay ← (← j.getObjVal? "layout").getStr?
+    let steps ← (← getArr j "steps").mapM stepOfJson
+    let e ← endOfJson (← j.getObjVal? "end")
+    let pre ← rowsOfJson (← j.getObjVal? "pre")
+    let g0 := if lay = "T" then layoutT t else layoutR t
+    let g := steps.foldl (fun g f => f g) g0
+    let stream := pre ++ endBy g e
+    let delivered := (segment stream).any fun b =>
+      decide (b.ty = .table) && decide (b.first = pre.length) && decide (b.rows = g)
+    pure (Json.mkObj [
+      ("plain", arr ((layoutR t).map rowToJson)),
+      ("grid", arr (g.map rowToJson)), ("stream", arr (stream.map rowToJson)),
+      ("wf", Json.bool t.wf), ("wfT", Json.bool t.wfT), ("block_shaped", Json.bool (blockShaped g)),
+      ("end_ok", Json.bool e.ok), ("delivered", Json.bool delivered)])
   | _ => none
 
 end Drv
